@@ -245,7 +245,8 @@ pub async fn run_case(c: Case) -> Result<CaseInfo, Failure> {
         }
         // every exchange has finished: each of the caller-chosen identifiers can be used again, whatever failed locally before
         if !w.ended() {
-            for id in 1u8..4 {
+            // (0 = an automatic id after the caller-chosen ones, 254 / 255 = the top of the range, 65 534 / 65 535)
+            for id in [1u8, 2, 3, 254, 255, 0, 0] {
                 w.force_send_own(SendKind::Qos1, id);
                 let slot = w.slots.len() - 1;
                 w.apply(Op::Settle).await.map_err(|f| fail(&c, &f.rule, f.detail))?;
@@ -258,7 +259,7 @@ pub async fn run_case(c: Case) -> Result<CaseInfo, Failure> {
                     return Err(Failure::new(
                         "free-id-refused",
                         format!("C06/{}/free-id-refused", c.role.name()),
-                        format!("nothing is outstanding, yet a QoS 1 publish with the caller-chosen packet id {id} ended as {:?}; local failure before: {local_failure}; futures {:?}", w.slots[slot].result, w.results_summary()),
+                        format!("nothing is outstanding, yet a QoS 1 publish with the caller-chosen packet id {id} (0 = automatic, 254 / 255 = 65534 / 65535) ended as {:?}; local failure before: {local_failure}; futures {:?}", w.slots[slot].result, w.results_summary()),
                     ));
                 }
             }
@@ -291,7 +292,7 @@ fn op_strategy() -> BoxedStrategy<Op> {
     let kind = prop_oneof![4 => Just(SendKind::Qos1), 3 => Just(SendKind::Qos2), 2 => Just(SendKind::Subscribe), 2 => Just(SendKind::Unsubscribe), 2 => Just(SendKind::NoBlock)];
     let kind2 = prop_oneof![2 => Just(SendKind::Qos1), 1 => Just(SendKind::Qos0), 1 => Just(SendKind::Subscribe), 1 => Just(SendKind::NoBlock)];
     prop_oneof![
-        8 => (kind, prop_oneof![5 => Just(0u8), 2 => 1u8..4]).prop_map(|(kind, own_id)| Op::Send { kind, again: false, own_id }),
+        8 => (kind, prop_oneof![10 => Just(0u8), 4 => 1u8..4, 1 => Just(254u8), 1 => Just(255u8)]).prop_map(|(kind, own_id)| Op::Send { kind, again: false, own_id }),
         1 => (0u8..2, 1u8..3).prop_map(|(qos, bad)| Op::StreamStart { qos, declared: 3, bad }),
         1 => prop_oneof![Just(Op::StreamDrop(0)), Just(Op::Chunk { stream: 0, len: 1 })],
         1 => (kind2, 0u8..3, prop_oneof![2 => Just(0u8), 1 => 1u8..4]).prop_map(|(kind, how, own)| Op::SendBad { kind, how: how | own << 2 }),
@@ -491,7 +492,7 @@ pub fn run(ctx: &Ctx, started: Instant) -> i32 {
         level: "exploration",
         rule: format!(
             "deviation matrix ({} cases): every send kind x every acknowledgement type at positions 0..2 (also for the second QoS 2 leg), wrong id / duplicate / reordered / unsolicited acknowledgements; one run of 65545 automatic packet ids with window 3 \
-             across the 65535->1 wrap per role; proptest histories of 2..15 ops: sends of QoS1/QoS2/subscribe/unsubscribe with automatic or caller-chosen ids 1..3 (collisions), locally failing sends (70000-byte topic or filter, 66000-byte user property, v5: packet above the peer's Maximum Packet Size of 64), acks singly/batched with generated v5 contents \
+             across the 65535->1 wrap per role; proptest histories of 2..15 ops: sends of QoS1/QoS2/subscribe/unsubscribe with automatic or caller-chosen ids 1..3 (collisions) and 65534 / 65535, locally failing sends (70000-byte topic or filter, 66000-byte user property, v5: packet above the peer's Maximum Packet Size of 64), acks singly/batched with generated v5 contents \
              (reason codes, reason strings, user properties, SUBACK lists), at most one deviation, releases and receipt drops. Oracle: a future resolves Ok only after a non-deviating acknowledgement of the right type and id was sent, and returns its contents; \
              outstanding ids non-zero and distinct; a deviation yields exactly one Stop(Protocol) and resolves every pending future; a correct peer completes everything on the wire, keeps the connection and restores credit(), also after local failures. \
              Non-trivial = >=2 requests outstanding at an ack, a deviation, a local failure followed by acknowledged traffic, or the wrap run; distinct = (role, op trace)",
